@@ -154,6 +154,13 @@ class P:
             # ... and the other way round: a registered function that fails is not replaced by anything either
             line(["H:31:%s" % ek, "H:33:r%s" % T(33)], ["REGF:%s:31" % hx("foo"), "CF:2:%s:33" % hx("foo"), "EXEC:1:" + hx("foo(1)"), "EXEC:2:" + hx("foo(1)")],
                  [None, None, ("foo(1)", evalspec.ERR), ("foo(1)", tag(33))])
+        # a dotted name is a name of its own: `ns.foo(..)` is not `foo(..)`, before or after `foo` is registered or replaced
+        line(["H:31:r%s" % T(31), "H:32:r%s" % T(32), "H:33:r%s" % T(33)],
+             ["REGF:%s:31" % hx("foo"), "EXEC:1:" + hx("ns.foo(1)"), "EXEC:1:" + hx("foo(1)"), "REGF:%s:32" % hx("foo"), "EXEC:1:" + hx("ns.foo(1)"),
+              "EXEC:1:" + hx("foo(1)"), "REGF:%s:33" % hx("ns.foo"), "EXEC:1:" + hx("ns.foo(1)"), "EXEC:1:" + hx("foo(1)"), "EXEC:1:" + hx("foo.ns(1)"),
+              "REGF:%s:31" % hx("foo"), "EXEC:1:" + hx("ns.foo(1)"), "EXEC:1:" + hx("Foo(1)"), "EXEC:1:" + hx("foo (1)")],
+             [None, ("ns.foo(1)", evalspec.ERR), ("foo(1)", tag(31)), None, ("ns.foo(1)", evalspec.ERR), ("foo(1)", tag(32)), None, ("ns.foo(1)", tag(33)),
+              ("foo(1)", tag(32)), ("foo.ns(1)", evalspec.ERR), None, ("ns.foo(1)", tag(33)), ("Foo(1)", evalspec.ERR), ("foo (1)", tag(31))])
         for kind_, reg_, regact, src in (("P", "REGP:%s:31" % hx("neg"), "U%s.32." % hx("neg"), "neg trig()"),
                                          ("S", "REGS:%s:31" % hx("bang"), "S%s.32." % hx("bang"), "trig() bang"),
                                          ("I", "REGI:%s:12c:0:0:31" % hx("hi"), "I%s.12c.0.0.32." % hx("hi"), "1 hi trig()"),
